@@ -340,7 +340,7 @@ PROPS = {
         rule="PAT: every body length 0..=1012 with random entries (program_number 0 in a fifth of them, reserved bits either "
              "way); PMT: every body length 0..=1012 with program_info_length in {0, fit-1, fit, fit+1, 4095, random} and the first "
              "ES_info_length steered the same way; builder-made PMTs with typed descriptors, 0..5 streams, random tails and "
-             "truncation; distinct = distinct case lines; every accessor of every entry is evaluated builder-made PMTs also with entries related to one another (same PID again with the same or another type, same type again, PCR PID among the streams)",
+             "truncation; distinct = distinct case lines; every accessor of every entry is evaluated (PMT: twice on one value, and on a second value back to front first: answers must not depend on call history) builder-made PMTs also with entries related to one another (same PID again with the same or another type, same type again, PCR PID among the streams)",
         trusted=["13818-1 Tables 2-30 and 2-33 as transcribed in coq/Spec/TablesSpec.v"],
         assumptions=["input bytes are < 256"],
     ),
@@ -380,7 +380,7 @@ PROPS = {
         rule="all 256 stream ids x buffer lengths around the fixed header; start-code deviations; all 256 flag bytes x "
              "PES_header_data_length in {0, need-1, need, need+1, need+3, 255} x buffer length in {end-2..end+1, end+30} x marker bits "
              "set/random; all 256 values of the first optional-header byte; all 256 trick-mode bytes at each of the 8 positions the "
-             "preceding flags imply; PesParsedContents::from_bytes on steered buffers; random short buffers; distinct = distinct "
+             "preceding flags imply; PesParsedContents::from_bytes on steered buffers; random short buffers; every accessor asked twice on one value and on a second value in the opposite order first; distinct = distinct "
              "case lines, every one evaluates every accessor of whatever is returned plus PES_packet_length steered around the bytes available (0, 1, avail-1, avail, avail+1, 0xffff) for every stream id; PTS/DTS equal, one tick apart, across the wrap",
         trusted=["13818-1 Table 2-21 / 2.4.3.7 as transcribed in coq/Spec/PesSpec.v"],
         assumptions=["input bytes are < 256", "StreamId has no numeric accessor: its value is recovered from equality with the public constants and its Debug rendering",
